@@ -24,7 +24,7 @@ from tools import vlib
 from tools.vlib import Outcome, sx
 
 MANIFEST = {
-    "level_text": "Coq theorems (Properties/C19.v, no axioms) about a Gallina transcription of save_to_tauri_config / from_tauri_config / validate (config.rs) and of the configuration phase of run_generate and run_init (bin): for every JSON document, every settings value (all twelve fields), every path into the document outside plugins.typegen, every set of files and every flag set: an accepted save preserves every other path (C19_preserve) and reads back as the settings written (C19_roundtrip); the save is refused with an error exactly when the root or plugins is not an object (C19_save_refused); init refuses invalid settings and unwritable documents without touching any file (C19_init_reject_first, C19_init_unsaveable) and otherwise leaves save_doc of the old document (C19_init_document); generate uses flag over file over default for all observable settings and refuses invalid effective settings without a write (C19_precedence, C19_generate_reject_first) for every set of files and flag set. The standalone configuration file (save_to_file / from_file as serde derives them; generate -c) and the build-script loader are modelled next to it: exact round trip for all twelve fields (C19_roundtrip_file), flag over standalone file over default (C19_precedence_file, C19_generate_c), file over default in the build script (C19_precedence_build), on the complement of the classes C19-8 and C19-9, each with a computed counterexample. The model is tied to /repo on every run: library calls on random documents (compared as JSON values) and the real binary on all 2^5 flag subsets x configuration-file variants and on random init runs.",
+    "level_text": "Coq theorems (Properties/C19.v, no axioms) about a Gallina transcription of save_to_tauri_config / from_tauri_config / validate (config.rs) and of the configuration phase of run_generate and run_init (bin): for every JSON document, every settings value (all twelve fields), every path into the document outside plugins.typegen, every set of files and every flag set: an accepted save preserves every other path (C19_preserve) and reads back as the settings written (C19_roundtrip); the save is refused with an error exactly when the root or plugins is not an object (C19_save_refused); init refuses invalid settings and unwritable documents without touching any file (C19_init_reject_first, C19_init_unsaveable) and otherwise leaves save_doc of the old document (C19_init_document); generate uses flag over file over default for all observable settings and refuses invalid effective settings without a write (C19_precedence, C19_generate_reject_first) for every set of files and flag set. The standalone configuration file (save_to_file / from_file as serde derives them; generate -c) and the build-script loader are modelled next to it: exact round trip for all twelve fields (C19_roundtrip_file), flag over standalone file over default (C19_precedence_file, C19_generate_c), file over default in the build script (C19_precedence_build), the build-script statement on the complement of the class C19-9, with a computed counterexample. The model is tied to /repo on every run: library calls on random documents (compared as JSON values) and the real binary on all 2^5 flag subsets x configuration-file variants and on random init runs.",
     "level_note": "JSON numbers are opaque tokens of serde_json's number model (u64/i64/f64): preservation of numbers is equality of those values, not of their spelling (1e3 comes back as 1000.0). Parsing and printing of JSON text (serde_json) is outside the model: the model starts from the value serde_json reads, the oracle from the reference reading of the text (a misread decimal is therefore reported). Analysis and generation are reduced to which project, which output directory, which mode. Not modelled: init targets not named tauri.conf.json; a standalone file whose root is a JSON array (serde reads it positionally); duplicate keys in a standalone file; the project detection of the build script (the driver runs it from the project root) and its verbosity (not observable). Force is observed through an immediate identical second run (relies on the cache being stable for a one-command project). Of the boolean oracles only roundtrip_b is proved to accept the model's own output.",
     "technique": "Rocq/Coq proof over hand-written model + correspondence check (extracted OCaml vs Rust harness and the real CLI binary in sandboxes)",
     "design_ref": "DESIGN.md section 5 C19, section 11 (preserve/save_writes/roundtrip/precedence spike)"
@@ -1037,7 +1037,7 @@ def eval_generatec(cases):
             corr = kind == "nocommands"
         else:
             corr = kind == "run" and eff and vlib.sx_parse(sx(obs[1])) == eff[0]
-        kf = "C19-8" if (not ok and "C19-8" in kfs and obs[0] == "rejected" and obs[1]) else None
+        kf = None                           # no recorded defect is left for generate -c
         det = {"impl": {"seen": obs, "raw": raw}, "model": result, "spec": spec, "classes": kfs}
         if ok and corr:
             det = {"seen": obs, "classes": kfs}
@@ -1076,9 +1076,9 @@ def exhaustive_generatec_cases():
 GENC_CORPUS = [
     ("seeded C19-4: force true only in the standalone file", {"force": True}, NOFLAGS, "proj"),
     ("force false in the file, --force flag", {"force": False}, dict(NOFLAGS, force=True), "proj"),
-    ("C19-8 witness: file relies on the missing default project, -p gives the real one",
+    ("regression (fixed C19-8): file relies on the missing default project, -p gives the real one",
      {"output_path": "./outF", "validation_library": "zod"}, dict(NOFLAGS, project="./projB"), "absent"),
-    ("C19-8: file library unsupported, flag supplies a valid one", {"validation_library": "yup", "output_path": "./outF"},
+    ("regression (fixed C19-8): file library unsupported, flag supplies a valid one", {"validation_library": "yup", "output_path": "./outF"},
      dict(NOFLAGS, lib="zod"), "proj"),
     ("file library unsupported, no flag", {"validation_library": "yup"}, NOFLAGS, "proj"),
     ("wrong type is an error", {"verbose": "yes"}, NOFLAGS, "proj"),
